@@ -25,6 +25,8 @@ type GenCfg struct {
 	KeepFailingPct int
 	// Hook lets a property veto/adjust an op after drawing (return false to drop it).
 	Hook func(m *Model, op *Op) bool
+	// Prefix: constructed ops that open the history (applied to the generator's model first, vetoed by Hook like drawn ones).
+	Prefix []Op
 }
 
 var allOps = []string{"WriteFile", "Writer", "MkdirAll", "Remove", "RemoveAll", "Copy", "CopyFile", "CopyDirectory",
@@ -326,7 +328,17 @@ func GenHistory(rt *rapid.T, cfg GenCfg) []Op {
 		g.m.Root = cfg.Initial.Clone()
 	}
 	n := rapid.IntRange(cfg.MinOps, cfg.MaxOps).Draw(rt, "nops")
-	ops := make([]Op, 0, n)
+	ops := make([]Op, 0, n+len(cfg.Prefix))
+	for _, op := range cfg.Prefix {
+		if cfg.Hook != nil && !cfg.Hook(g.m, &op) {
+			continue
+		}
+		if e := g.m.Apply(op); e.Skip {
+			continue
+		}
+		ops = append(ops, op)
+	}
+	n += len(ops)
 	for tries := 0; len(ops) < n && tries < 3*n+10; tries++ {
 		op, ok := g.one()
 		if !ok {
